@@ -144,17 +144,33 @@ package pod_info
 //@     invariant podResourcesList != nil && fresh(podResourcesList)
 //@     invariant forall p *resource.Quantity :: old(allocated(p)) ==> *p == old(*p)
 //@   ensures fresh(result.scalarResources) && fresh(result.migResources) && fresh(result.draGpuCounts)
+//@   trust [containersTotal] result.milliCpu == containersCpu(pod) && result.memory == containersMem(pod)
+//@   note containersTotal NAMES the sum over the regular containers (the per-key sums are k8s Quantity arithmetic, outside reach); nothing else is assumed about it
 //@ end
 
+// C01 "the CPU, memory ... requested by the pods": what a pod requests is the Kubernetes pod request:
+//   max(sum of the regular containers, every init container) + the RuntimeClass overhead (the overhead on top of BOTH).
+//@ declare containersCpu(pod *v1.Pod) real
+//@ declare containersMem(pod *v1.Pod) real
+//@ define ovhCpu(pod *v1.Pod) real = ite(pod.Spec.Overhead != nil, resource_info.rlCpu(pod.Spec.Overhead), 0.0)
+//@ define ovhMem(pod *v1.Pod) real = ite(pod.Spec.Overhead != nil, resource_info.rlMem(pod.Spec.Overhead), 0.0)
 //@ func getPodResourceRequest
-//@   props C10 C19
+//@   props C10 C19 C01
 //@   requires pod != nil
 //@   fresh
 //@   loop 1
 //@     invariant -1 <= rangeindex && rangeindex < len(pod.Spec.InitContainers)
 //@     invariant result != nil && fresh(result) && fresh(result.scalarResources) && fresh(result.migResources) && fresh(result.draGpuCounts)
+//@     invariant result.milliCpu >= containersCpu(pod) && result.memory >= containersMem(pod)
+//@     invariant forall j int :: 0 <= j && j <= rangeindex ==> result.milliCpu >= resource_info.rlCpu(pod.Spec.InitContainers[j].Resources.Requests) && result.memory >= resource_info.rlMem(pod.Spec.InitContainers[j].Resources.Requests)
+//@     invariant result.milliCpu == containersCpu(pod) || (exists j int :: 0 <= j && j <= rangeindex && result.milliCpu == resource_info.rlCpu(pod.Spec.InitContainers[j].Resources.Requests))
+//@     invariant result.memory == containersMem(pod) || (exists j int :: 0 <= j && j <= rangeindex && result.memory == resource_info.rlMem(pod.Spec.InitContainers[j].Resources.Requests))
 //@   ensures fresh(result.scalarResources) && fresh(result.migResources) && fresh(result.draGpuCounts)
 //@   ensures [one-pod] result.scalarResources[resource_info.PodsResourceName] == 1
+//@   ensures [overheadOnTopOfContainers] result.milliCpu >= containersCpu(pod) + ovhCpu(pod) && result.memory >= containersMem(pod) + ovhMem(pod)
+//@   ensures [overheadOnTopOfEveryInitContainer] forall j int :: 0 <= j && j < len(pod.Spec.InitContainers) ==> result.milliCpu >= resource_info.rlCpu(pod.Spec.InitContainers[j].Resources.Requests) + ovhCpu(pod) && result.memory >= resource_info.rlMem(pod.Spec.InitContainers[j].Resources.Requests) + ovhMem(pod)
+//@   ensures [cpuRequestExact] result.milliCpu == containersCpu(pod) + ovhCpu(pod) || (exists j int :: 0 <= j && j < len(pod.Spec.InitContainers) && result.milliCpu == resource_info.rlCpu(pod.Spec.InitContainers[j].Resources.Requests) + ovhCpu(pod))
+//@   ensures [memRequestExact] result.memory == containersMem(pod) + ovhMem(pod) || (exists j int :: 0 <= j && j < len(pod.Spec.InitContainers) && result.memory == resource_info.rlMem(pod.Spec.InitContainers[j].Resources.Requests) + ovhMem(pod))
 //@ end
 
 // NewTaskInfoWithBindRequest / resourceClaimInfoFromPodClaims: not under contract.  Blockers (reported):
